@@ -65,9 +65,9 @@ func c20PkCfgOf(uquic bool, initPkts int, dq, dt int) func(bool) *c20PkCfg {
 
 func TestVerifC20Pack(t *testing.T) {
 	explore.Main("C20", []explore.Part{
-		c20PkPart("pack-uquic", c20PkCfgOf(true, 0, 7, 8)),
-		c20PkPart("pack-uquic4", c20PkCfgOf(true, 4, 7, 8)),
-		c20PkPart("pack-plain", c20PkCfgOf(false, 0, 7, 8)),
-		c20PkPart("pack-plain4", c20PkCfgOf(false, 4, 7, 8)),
+		c20PkPart("pack-uquic", c20PkCfgOf(true, 0, 6, 7)),
+		c20PkPart("pack-uquic4", c20PkCfgOf(true, 4, 6, 7)),
+		c20PkPart("pack-plain", c20PkCfgOf(false, 0, 6, 7)),
+		c20PkPart("pack-plain4", c20PkCfgOf(false, 4, 6, 7)),
 	}, func(msg string) { t.Fatal(msg) })
 }
